@@ -217,6 +217,17 @@ pub trait Surface {
     //@+ ensures
     //@+     r.g_inner() == self,
     //@+     rep(r.g_shape(), transposed(self.win()), self.spec_data().len()),
+
+    //@ fn trait Surface :: to_owned_surf ret=r
+    //@+ requires
+    //@+     rep(self.spec_shape(), self.win(), self.spec_data().len()),
+    //@+     self.spec_shape().height * self.spec_shape().width <= isize::MAX,
+    //@+ ensures
+    //@+     // a fresh owned surface of the window's size; only in-window cells are read (every index is in range)
+    //@+     r.g_data().len() == self.spec_shape().height * self.spec_shape().width,
+    //@+     rep(r.g_shape(), full_win(self.spec_shape().height as nat, self.spec_shape().width as nat), r.g_data().len()),
+    //@subst N11 closure annotated with the precondition under which new_with calls it (in-window positions) /\|pos\| data\[shape\.offset\(pos\)\]\.clone\(\)/|pos: Position| -> (t: Self::Item) requires pos.row < shape.height && pos.col < shape.width, rep(shape, self.win(), data@.len()) { proof { lemma_offset(shape, self.win(), data@.len(), pos); } data[shape.offset(pos)].clone() }/
+    // (Surface::map has the same shape but its closure captures the caller's `mut f`: "closures capturing a mutable reference" are not supported)
 }
 
 // N5: `impl Iterator for SurfaceIter` re-homed as inherent methods (bodies verbatim)
@@ -314,15 +325,15 @@ impl<T> SurfaceOwned<T> {
     //@ fn impl<T> SurfaceOwned<T> :: new_with ret=r
     //@+ requires
     //@+     size.height * size.width <= isize::MAX,
-    //@+     forall|p: Position| f.requires((p,)),
+    //@+     forall|p: Position| p.row < size.height && p.col < size.width ==> #[trigger] f.requires((p,)),
     //@+ ensures
     //@+     r.g_data().len() == size.height * size.width,
     //@+     rep(r.g_shape(), full_win(size.height as nat, size.width as nat), r.g_data().len()),
     //@subst N5 `Shape::from(size)` routed to the re-homed `impl From<Size> for Shape` /Shape::from\(size\)/Shape::from_size(size)/
     //@loop 1 invariant
-    //@loop 1     data@.len() == row * size.width, size.height * size.width <= isize::MAX, forall|p: Position| f.requires((p,)),
+    //@loop 1     data@.len() == row * size.width, size.height * size.width <= isize::MAX, forall|p: Position| p.row < size.height && p.col < size.width ==> #[trigger] f.requires((p,)),
     //@loop 2 invariant
-    //@loop 2     data@.len() == row * size.width + col, row < size.height, size.height * size.width <= isize::MAX, forall|p: Position| f.requires((p,)),
+    //@loop 2     data@.len() == row * size.width + col, row < size.height, size.height * size.width <= isize::MAX, forall|p: Position| p.row < size.height && p.col < size.width ==> #[trigger] f.requires((p,)),
     //@proof before:/for\srow\sin/ proof { assert(0 * size.width == 0) by (nonlinear_arith); }
     //@proof loop1.end proof { assert((row + 1) * size.width == row * size.width + size.width) by (nonlinear_arith); }
 }
@@ -347,6 +358,23 @@ pub trait SurfaceMut: Surface {
     //@loop 1     frame(shape, old(self).win(), old(self).spec_data(), data@),
     //@loop 2 invariant
     //@loop 2     shape == old(self).spec_shape(), row < shape.height,
+    //@loop 2     rep(shape, old(self).win(), data@.len()),
+    //@loop 2     frame(shape, old(self).win(), old(self).spec_data(), data@),
+    //@proof loop2.start proof { let p = Position { row, col }; lemma_offset(shape, old(self).win(), data@.len(), p); assert(is_win_offset(shape, old(self).win(), spec_offset(shape, p))); }
+
+    //@ fn trait SurfaceMut: Surface :: fill_with
+    //@+ requires
+    //@+     rep(old(self).spec_shape(), old(self).win(), old(self).spec_data().len()),
+    //@+     forall|p: Position, it: Self::Item| fill.requires((p, it)),
+    //@+ ensures
+    //@+     final(self).spec_shape() == old(self).spec_shape(), final(self).win() == old(self).win(),
+    //@+     frame(old(self).spec_shape(), old(self).win(), old(self).spec_data(), final(self).spec_data()),
+    //@loop 1 invariant
+    //@loop 1     shape == old(self).spec_shape(), forall|p: Position, it: Self::Item| fill.requires((p, it)),
+    //@loop 1     rep(shape, old(self).win(), data@.len()),
+    //@loop 1     frame(shape, old(self).win(), old(self).spec_data(), data@),
+    //@loop 2 invariant
+    //@loop 2     shape == old(self).spec_shape(), row < shape.height, forall|p: Position, it: Self::Item| fill.requires((p, it)),
     //@loop 2     rep(shape, old(self).win(), data@.len()),
     //@loop 2     frame(shape, old(self).win(), old(self).spec_data(), data@),
     //@proof loop2.start proof { let p = Position { row, col }; lemma_offset(shape, old(self).win(), data@.len(), p); assert(is_win_offset(shape, old(self).win(), spec_offset(shape, p))); }
